@@ -7,7 +7,8 @@ from layers.driver import layer_istep, layer_driver
 
 MODULE = 'Flowdyn.Props.C06'
 THEOREMS = core.theorems_in(['C06.lean'], 'Flowdyn.C06')
-AUDIT_IMPORTS = ['Flowdyn.Props.C06c']
+AUDIT_IMPORTS = ['Flowdyn.Props.C06c', 'Flowdyn.Props.C06b']
+THEOREMS = THEOREMS + [t for t in core.theorems_in(['C06b.lean'], 'Flowdyn.C06') if '.Ex.' not in t]
 THEOREMS = THEOREMS + [t for t in core.theorems_in(['C06c.lean'], 'Flowdyn.C06') if '.FdEx.' not in t]
 PARTIAL = {"nonlinear Jacobian": "proved over the reals (C06c): each entry of the model's fdJac converges to the partial derivative iff the line derivative exists (fdJac_tendsto_iff; one-sided version for the code's positive eps), equals it up to c*eps exactly for quadratic lines and up to M|eps|/2 for Lipschitz derivatives (fdJac_error_bound*), and the theta-step with the FD Jacobian converges to the exactly linearised step (thetaStep_fdJac_error, thetaStep_fdJac_tendsto); differentiability of the concrete flowdyn residuals (false at limiter/upwind kinks) stays a hypothesis and is explored numerically"}
 LEVEL_NOTE = "np.linalg.solve is a parameter assumed to return a solution of the system formed; theorems on affine problems over any field; amplification factors over the complex numbers"
@@ -148,7 +149,7 @@ def oracle(ctx, seeds=None):
     for i in range(ctx.n(16, 200)):
         model = str(rng.choice(['burgers', 'euler', 'sw']))
         cfg = cfg1d.rand_config(rng, model=model, n=int(rng.integers(2, 6)), smooth=True, per=bool(rng.integers(2)),
-                                scheme=cfg1d.rand_scheme(rng, ['extrapol1', 'extrapol2', 'extrapol3']))
+                                scheme=cfg1d.rand_scheme(rng, ['extrapol1', 'extrapol2', 'extrapol3']), units=False)
         if model == 'burgers':
             cfg['prim'] = [[float(x) for x in 2.0 + 0.3 * rng.normal(size=cfg['n'])]]
         if model in ('euler', 'sw') and i % 3 == 0:
@@ -156,10 +157,20 @@ def oracle(ctx, seeds=None):
             cfg['flux'] = 'centered' if model == 'sw' else str(rng.choice(['centered', 'hlle']))   # fluxes that are differentiable at u = 0
         if cfg['bcL']['type'] not in ('per', 'dirichlet', 'sym', 'outsup', 'inf'):
             cfg['bcL'] = cfg['bcR'] = {'type': 'per'}
+        rest = model in ('euler', 'sw') and i % 3 == 0
+        scaled = False
+        if not rest and i % 3 == 1:
+            # the same problem in other units (magnitudes far from 1): the perturbation is relative to each component.
+            # (At rest the code falls back to the absolute perturbation epsdiff*1.0, which is only meaningful for O(1) units: O5.)
+            if model != 'burgers' and min(abs(np.mean(np.abs(cfg['prim'][1]))), 1.0) < 0.05:
+                cfg['prim'][1] = [float(x + 0.5) for x in cfg['prim'][1]]
+            cfg1d.rescale_units(cfg, 2.0 ** int(rng.integers(-30, 31)), 2.0 ** int(rng.integers(-15, 16)))
+            scaled = True
         ok, b_ = impl.guarded(cfg1d.build, cfg)
         if not ok:
             res.fail('build:raised', b_, dict(cfg=cfg)); continue
         mod, msh, disc, f = b_
+        mean = [float(np.mean(np.abs(d))) for d in f.data]
         def run():
             s = impl.integ.implicit(msh, disc)
             J = np.array(s.calc_jacobian(f), dtype=float)
@@ -167,7 +178,7 @@ def oracle(ctx, seeds=None):
             Jr = np.zeros_like(J)
             for c in range(n):
                 for q_ in range(neq):
-                    h = 1e-6 * (abs(f.data[q_][c]) + 1e-3)
+                    h = 1e-6 * (abs(f.data[q_][c]) + (mean[q_] if scaled else 1e-3))
                     fp = f.copy(); fp.data[q_][c] += h
                     fm = f.copy(); fm.data[q_][c] -= h
                     rp_ = [np.array(x, dtype=float).copy() for x in disc.rhs(fp)]
@@ -182,9 +193,22 @@ def oracle(ctx, seeds=None):
         J, Jr = out
         if not np.all(np.isfinite(Jr)):
             continue
-        floor = 1e-7 * (1.0 + max(float(np.max(np.abs(x))) for x in disc.rhs(f)))   # round-off of the differences
-        if not np.max(np.abs(J - Jr)) <= 2e-4 * np.max(np.abs(Jr)) + floor:
-            res.fail(model + ':jacobian', "finite-difference Jacobian differs from the derivative by %r (max entry %r)" % (float(np.max(np.abs(J - Jr))), float(np.max(np.abs(Jr)))), dict(cfg=cfg))
+        # non-dimensional comparison: entry (i,j) maps a perturbation of component j to the rate of component i
+        neq = mod.neq
+        W = mod.cons2prim([np.array(x, dtype=float) for x in f.data])
+        if model == 'burgers':
+            wave = float(np.max(np.abs(f.data[0]))); nat = [wave]
+        elif model == 'sw':
+            cc = np.sqrt(cfg['g'] * W[0]); wave = float(np.max(np.abs(W[1]) + cc)); nat = [float(np.mean(W[0])), float(np.mean(W[0] * cc))]
+        else:
+            cc = np.sqrt(cfg['gamma'] * W[2] / W[0]); wave = float(np.max(np.abs(W[1]) + cc))
+            nat = [float(np.mean(W[0])), float(np.mean(W[0] * cc)), float(np.mean(W[2]))]
+        S = wave / float(np.min(msh.vol()))
+        compsc = np.array([nat[k % neq] for k in range(J.shape[0])])
+        Jn = J * compsc[None, :] / compsc[:, None]
+        Jrn = Jr * compsc[None, :] / compsc[:, None]
+        if not np.max(np.abs(Jn - Jrn)) <= 2e-4 * np.max(np.abs(Jrn)) + 1e-6 * S:
+            res.fail(model + ':jacobian', "finite-difference Jacobian differs from the derivative by %r (max entry %r; non-dimensional entries, wave speed / cell size = %r)" % (float(np.max(np.abs(Jn - Jrn))), float(np.max(np.abs(Jrn))), S), dict(cfg=cfg))
     return res
 
 
